@@ -34,7 +34,9 @@ CHECKS = {
          "of both signs, the interpreter must print the predicted text (exact where the expansion has <= 15 significant digits), read its own output "
          "back to the identical number (sign of zero via 1/x), and read the exact expansion, the midpoint of the gap above (ties to even, with a "
          "negative control), texts just above / below it and the quarter points as the predicted neighbour, through String.to_num and as source "
-         "literals. Every text of <= 4 characters over a number alphabet is accepted / rejected as the grammar in the specification says. "
+         "literals. Every text of <= 4 characters over a number alphabet is accepted / rejected as the grammar in the specification says. In a two-phase replay 2 000 TLC-drawn "
+         "bit patterns (thorough 20 000) are printed and the printed text - 16-17 significant digits, the length the printer produces - must denote the number again as a "
+         "source literal and as to_num argument of a second program. "
          "Scanner.tla decides `1.len`, `1..3`, `1.5`, `1.` token by token for all sources up to 5 characters over the Numbers alphabet.",
     note="Not for all 2^64 doubles: boundaries + lattice + TLC-drawn samples. Where the exact expansion has more than 15 significant digits the "
          "shortest-digit text is not predicted (no model of that algorithm, which lives in the Rust standard library); it is constrained by the "
@@ -45,7 +47,7 @@ CHECKS = {
     level="model_checking",
     text="Scanner.tla is an executable specification of scan_token (white space, comments, the two-character number look-ahead, keywords, every "
          "operator, strings with escapes, hexadecimal / Unicode escapes validated as UTF-8, the interpolation brace stack and its depth limit, line "
-         "counting). TLC enumerates every source over six alphabets up to 3-5 characters as initial states, checks ScanTerminates, and the real "
+         "counting). TLC enumerates every source over eight alphabets up to 3-5 characters (incl. line breaks / carriage returns / tabs inside and outside literals, and escape digit windows running into 2-, 3- and 4-byte characters) as initial states, checks ScanTerminates, and the real "
          "scanner must produce exactly the predicted kinds, texts and lines. The parser is bound by trace validation: every compilation of "
          "~70 000 inputs (prefixes, token-range deletions / duplications / swaps / substitutions / insertions, Unicode noise over the repository's "
          "scripts; all pairs and sampled longer sequences over the token vocabulary; nesting around the stated bounds) must return, fail only with "
@@ -79,8 +81,9 @@ CHECKS = {
          "as an initial state - all strings of <= 2 (thorough 3) characters over an alphabet mixing 1-, 2-, 3- and 4-byte characters x every index "
          "around every boundary x special numbers x non-numbers, every range incl. bounds at the two ends of the integer domain, every function with every argument combination, byte and code point "
          "sequences valid and invalid - proves that every produced string is valid UTF-8, and prints the expected result of each case; each case is "
-         "run as a one-line program on the implementation and must print exactly that.",
-    note="Exhaustive over the stated pools only. Number parsing / printing inside strings belongs to C19.",
+         "run as a one-line program on the implementation and must print exactly that. Conversion to and from numbers is decided with NumFormat.tla (exact doubles, exact decimal "
+         "expansions): the boundary numbers, TLC-drawn random patterns, every short text over a number alphabet, and the two-phase round trip of printed texts (see C19).",
+    note="Exhaustive over the stated pools only. The dyadic-lattice sweep of number printing runs in C19 only.",
     technique="TLA+ functional model + TLC exhaustive case enumeration + one implementation run per case", design="4 C13"),
  "C12": dict(
     level="model_checking",
@@ -267,7 +270,7 @@ CHECKS = {
          "on the real table comparing the whole slot array and object identities; the real FNV path is bound the other "
          "way round: every Vm::new_gc_obj_string call logs its probe result and TraceIntern.tla must explain each event. StrIdent.tla "
          "enumerates pairs of string PRODUCERS inside programs (literal, concatenation at any split, slice at any byte offset, interpolation, split piece, "
-         "replace, from_utf8, character-wise rebuild) x lengths around 8 / 16 / 32 / 64 bytes x misalignments x same-or-one-byte-different contents; "
+         "replace, from_utf8, character-wise rebuild) x lengths around 8 / 16 / 32 / 64 bytes and around 255 / 256 / 257, 1024, 4097 (thorough: up to 65537) x misalignments x same-or-one-byte-different contents; "
          "==, reversed == and a map lookup must say exactly 'same bytes'.",
     note="Trusts TLC and the harness; full-hash collisions reach the real code only through the hook wrapper "
          "verif_intern::Table (same get/insert code with a caller-chosen hash).",
